@@ -289,6 +289,31 @@ func (i *Identity) Commit(repo repository.ClockedRepo) error {
 		return errors.Wrap(err, "can't commit an identity with invalid data")
 	}
 
+	ref := fmt.Sprintf("%s%s", identityRefPattern, i.Id().String())
+
+	// The reference is only moved if it points to one of the versions this Identity knows: then
+	// the new versions come after everything the reference holds. Otherwise (another object of the
+	// same identity has been committed, a pull brought newer versions) moving it would drop the
+	// versions committed there in the meantime.
+	if i.versions[0].commitHash != "" {
+		current, err := repo.ResolveRef(ref)
+		if err != nil && err != repository.ErrNotFound {
+			return err
+		}
+		if err == nil {
+			known := false
+			for _, v := range i.versions {
+				if v.commitHash == current {
+					known = true
+					break
+				}
+			}
+			if !known {
+				return fmt.Errorf("can't commit an identity that changed in the repository since it was loaded")
+			}
+		}
+	}
+
 	var lastCommit repository.Hash
 	for _, v := range i.versions {
 		if v.commitHash != "" {
@@ -326,7 +351,6 @@ func (i *Identity) Commit(repo repository.ClockedRepo) error {
 		v.commitHash = commitHash
 	}
 
-	ref := fmt.Sprintf("%s%s", identityRefPattern, i.Id().String())
 	return repo.UpdateRef(ref, lastCommit)
 }
 
